@@ -497,6 +497,12 @@ static void prop_multipolygon(Src& s) {
         model::NodeRef c[5] = {{q.first_node, {q.x, q.y}}, {q.first_node + 1, {q.x + q.size, q.y}}, {q.first_node + 2, {q.x + q.size, q.y + q.size}}, {q.first_node + 3, {q.x, q.y + q.size}}, {q.first_node, {q.x, q.y}}};
         size_t cuts = s.weighted({3, 3, 2});  // 0: one closed way, 1: two ways, 2: three ways
         std::vector<std::vector<model::NodeRef>> parts;
+        // a way in one piece is closed by its last node being the first one -- or (one time in three) by a second node at the same
+        // place: the manager goes by the location of the two ends, not by their ids
+        if (cuts == 0 && s.chance(1, 3)) {
+            c[4].ref = q.first_node + 4;
+            vp::count("mp_way_closed_by_location_only");
+        }
         if (cuts == 0) parts = {{c[0], c[1], c[2], c[3], c[4]}};
         else if (cuts == 1) parts = {{c[0], c[1], c[2]}, {c[2], c[3], c[4]}};
         else parts = {{c[0], c[1]}, {c[1], c[2], c[3]}, {c[3], c[4]}};
@@ -577,7 +583,7 @@ static void prop_multipolygon(Src& s) {
     std::map<int64_t, size_t> want;  // area id -> number of outer rings
     for (const auto& kv : ways) {
         const Obj& w = kv.second;
-        if (!present.count(w.id) || w.refs.size() <= 3 || w.refs.front().ref != w.refs.back().ref) continue;
+        if (!present.count(w.id) || w.refs.size() <= 3 || !(w.refs.front().loc == w.refs.back().loc)) continue;
         bool area_no = false;
         for (const auto& t : w.tags) area_no |= (t.k == "area" && t.v == "no");
         if (area_no) continue;
@@ -611,7 +617,7 @@ static void prop_multipolygon(Src& s) {
         size_t outers = 0;
         for (const auto& r : a.rings) {
             if (r.outer) ++outers;
-            VP_CHECK(r.refs.size() == 5 && r.refs.front() == r.refs.back(), "area-ring", "ring of area " << a.id << " is not a closed square | " << d);
+            VP_CHECK(r.refs.size() == 5 && r.refs.front().loc == r.refs.back().loc, "area-ring", "ring of area " << a.id << " is not a closed square | " << d);
         }
         got[a.id] = outers;
     }
